@@ -6,7 +6,7 @@ import math
 import operator
 import uuid
 import warnings
-from collections import defaultdict
+from collections import Counter, defaultdict
 from collections.abc import Iterable, Iterator, Sequence
 from functools import partial, reduce, wraps
 from random import Random
@@ -88,6 +88,19 @@ no_result = type(
 )
 
 
+def _count_references(node, counts):
+    """Count how often every key is referenced by ``node`` (with multiplicity)."""
+    if isinstance(node, Alias):
+        counts[node.target] += 1
+    elif isinstance(node, TaskRef):
+        counts[node.key] += 1
+    elif isinstance(node, Task):
+        for arg in node.args:
+            _count_references(arg, counts)
+        for arg in node.kwargs.values():
+            _count_references(arg, counts)
+
+
 def lazify_task(task, start=True):
     """
     Given a task, remove unnecessary calls to ``list`` and ``reify``.
@@ -119,15 +132,21 @@ def lazify_task(task, start=True):
             final_task = lazify_task(subgraph[outkey], True)
             # The output may be an alias of an inner task: that task's value
             # leaves the subgraph as well and may have several consumers
-            escaping = {outkey}
-            node = subgraph[outkey]
-            while (
-                isinstance(node, Alias)
-                and node.target in subgraph
-                and node.target not in escaping
-            ):
-                escaping.add(node.target)
-                node = subgraph[node.target]
+            # A task of the chain may also read its single dependency more than
+            # once (``zip(b, b)``, ``b.map(f, b)``): a one-shot iterator would
+            # be shared between the readers
+            references = Counter()
+            for v in subgraph.values():
+                _count_references(v, references)
+            read_more_than_once = [k for k, n in references.items() if n > 1]
+            escaping = set()
+            for key in [outkey] + read_more_than_once:
+                while key in subgraph and key not in escaping:
+                    escaping.add(key)
+                    node = subgraph[key]
+                    if not isinstance(node, Alias):
+                        break
+                    key = node.target
             subgraph = {
                 k: lazify_task(v, k in escaping)
                 for k, v in subgraph.items()
